@@ -13,7 +13,7 @@ from lib import vlib
 def run(ctx):
     ctx.build_harness()
     ctx.tlc_must_pass("MC_Colors", "MC_Colors", timeout=900)
-    p, _ = ctx.run_harness(["drive-c09", "-out", ctx.tmp, "-shards", "16"])
+    p, _ = ctx.run_harness(["drive-c09", "-out", ctx.tmp, "-shards", "16" if ctx.tier == "quick" else "48"])
     summ = json.loads([l for l in p.stdout.splitlines() if l.startswith("@@SUMMARY ")][-1][10:])
     files = sorted(glob.glob(os.path.join(ctx.tmp, "c09.*.ndjson")))
     events, diags, runs = vlib.tv_shards(ctx, "TV_Colors", "TV_Colors", files)
